@@ -621,67 +621,73 @@ func c04EmptyRule(w *World, r *Report, rule string) {
 
 func c04FuncLookup(w *World, r *Report) {
 	lookup := w.Func("xpath", "LookupXpathFunction")
-	// CommonLex.LexName: in the `(` branch the last statements are lookup; if ok return FUNC; SetError; return ERR
-	fd, p := w.FuncDecl(w.Method("xpath", "CommonLex", "LexName"))
+	// CommonLex.LexName as a decision table: FUNC is answered only with the symbol a successful
+	// lookup returned, and a name followed by '(' is never answered with anything but a
+	// function / node-type token or ERR
+	lfd, _ := w.FuncDecl(w.Method("xpath", "CommonLex", "LexName"))
 	nnws := w.Method("xpath", "CommonLex", "NextNonWhitespaceStringIs")
 	funcTok := xutilsTok(w, "FUNC")
 	errTok := xutilsTok(w, "ERR")
-	found := false
-	for _, s := range fd.Body.List {
-		is, ok := s.(*ast.IfStmt)
-		if !ok {
-			continue
+	why := "no exit answers FUNC"
+	if lf := w.SSAFunc(w.Method("xpath", "CommonLex", "LexName")); lf != nil && len(ssaLoops(lf)) == 0 {
+		sym := NewSym(w)
+		sym.Expand = false
+		allowed := map[int64]bool{}
+		for _, t := range []string{"FUNC", "TEXTFUNC", "CURRENTFUNC", "DEREFFUNC", "NODETYPE", "ERR"} {
+			allowed[xutilsTok(w, t)] = true
 		}
-		ce, ok := ast.Unparen(is.Cond).(*ast.CallExpr)
-		if !ok || calleeOf(p, ce) != nnws {
-			continue
-		}
-		if v, ok := ConstStr(p, ce.Args[0]); !ok || v != "(" {
-			continue
-		}
-		found = true
-		// every path through this block returns; the final return is ERR; FUNC is returned only under `ok` of a lookup
-		rets := returnsIn(is.Body)
-		last := is.Body.List[len(is.Body.List)-1]
-		lr, isRet := last.(*ast.ReturnStmt)
-		endsErr := false
-		if isRet {
-			if v, ok := ConstInt(p, lr.Results[0]); ok && v == errTok {
-				endsErr = true
+		isParen := func(a *pcAtom) string {
+			if c, ok := a.v.(*ssa.Call); ok && c.Call.StaticCallee() != nil && c.Call.StaticCallee().Object() == types.Object(nnws) && len(c.Call.Args) == 2 {
+				if k, ok := c.Call.Args[1].(*ssa.Const); ok && k.Value != nil && k.Value.Kind() == constant.String && constant.StringVal(k.Value) == "(" {
+					return "paren"
+				}
 			}
+			return ""
 		}
-		funcGuarded := true
+		r0, r1 := sym.retTable(lf, 0), sym.retTable(lf, 1)
 		nFunc := 0
-		for _, ret := range rets {
-			if v, ok := ConstInt(p, ret.Results[0]); ok && v == funcTok {
+		why = ""
+		for i := range r0 {
+			tok, isTok := intConstOf(r0[i].val)
+			if isTok && tok == funcTok {
 				nFunc++
-				// second result must be the first result of a lookup call assigned just before
-				id, isId := ret.Results[1].(*ast.Ident)
-				if !isId {
-					funcGuarded = false
+				ex, ok := stripIface(r1[i].val).(*ssa.Extract)
+				var call *ssa.Call
+				if ok && ex.Index == 0 {
+					call, _ = ex.Tuple.(*ssa.Call)
+				}
+				if call == nil || call.Call.StaticCallee() == nil || call.Call.StaticCallee().Object() != types.Object(lookup) {
+					why = "FUNC is answered with something other than the symbol LookupXpathFunction returned"
 					continue
 				}
-				obj := p.TypesInfo.Uses[id]
-				okAssign := false
-				ast.Inspect(is.Body, func(n ast.Node) bool {
-					if as, ok := n.(*ast.AssignStmt); ok && len(as.Rhs) == 1 && len(as.Lhs) == 2 {
-						if c2, ok := as.Rhs[0].(*ast.CallExpr); ok && calleeOf(p, c2) == lookup && objOfIdent(p, as.Lhs[0]) == obj {
-							okAssign = true
-						}
+				if msg := pcImplies(r0[i].cond, func(a *pcAtom) string {
+					if e2, ok := a.v.(*ssa.Extract); ok && e2.Tuple == ssa.Value(call) && e2.Index == 1 {
+						return "found"
 					}
-					return true
-				})
-				if !okAssign {
-					funcGuarded = false
+					return ""
+				}, func(env map[string]bool) bool { return env["found"] }); msg != "" {
+					why = "FUNC is answered although the lookup may have failed (" + msg + ")"
+				}
+			}
+			// a name followed by '(' ...
+			if pcImplies(r0[i].cond, isParen, func(env map[string]bool) bool { return env["paren"] }) == "" {
+				hasParen := false
+				for _, a := range r0[i].cond.atoms() {
+					if isParen(a) != "" {
+						hasParen = true
+					}
+				}
+				if hasParen && (!isTok || !allowed[tok]) {
+					why = "a name followed by '(' is answered with a token that is neither a function, a node type nor ERR"
 				}
 			}
 		}
-		r.Check(endsErr && funcGuarded && nFunc >= 1, "R04.9", "CommonLex.LexName '(' branch", is.Pos(), "FUNC only for a symbol found by LookupXpathFunction; falls through to ERR",
-			"a name followed by '(' can become a FUNC token without a successful table lookup, or the not-found path does not end in ERR")
+		if why == "" && nFunc == 0 {
+			why = "no exit answers FUNC"
+		}
 	}
-	if !found {
-		r.Fail("R04.9", "CommonLex.LexName '(' branch", fd.Pos(), "branch on NextNonWhitespaceStringIs(\"(\") not found")
-	}
+	r.Check(why == "", "R04.9", "CommonLex.LexName '(' branch", lfd.Pos(), "FUNC only for a symbol found by LookupXpathFunction; falls through to ERR",
+		"a name followed by '(' can become a FUNC token without a successful table lookup, or the not-found path does not end in ERR: "+why)
 	// LookupXpathFunction: returns (sym,true) only from the table or the user checker
 	c04LookupTable(w, r, lookup)
 	// leafref: only current
